@@ -28,6 +28,9 @@ type SeqScenario struct {
 	Hold   string           `json:"hold"`  // burst only: name of a hook point at which the engine goroutine is held until every row has been handed in
 	Perf   *SeqPerf         `json:"perf"`  // custom performance configuration
 	Ops    []SeqOp          `json:"ops"`   // optional explicit operation list (JOIN scenarios); when empty: emit every row
+	GapMs  int64            `json:"gap_ms"`  // STATETTL scenarios: real-time pause before every row
+	TTLMs  int64            `json:"ttl_ms"`  // STATETTL of the query: the trace is voided when the driver itself let a group idle too long
+	Span   int              `json:"span"`    // rows of one group are at most this many positions apart
 }
 
 // SeqPerf selects buffer sizes and the overflow strategy.
@@ -222,6 +225,7 @@ func RunSeq(sc SeqScenario) (evs []Ev, inconclusive string) {
 		i    int
 	}
 	var handed []held
+	var emitTimes []time.Time
 	for i, op := range ops {
 		switch op.Op {
 		case "emit", "sync":
@@ -245,6 +249,22 @@ func RunSeq(sc SeqScenario) (evs []Ev, inconclusive string) {
 				}
 				in.Log(e)
 			} else {
+				if sc.GapMs > 0 {
+					time.Sleep(time.Duration(sc.GapMs) * time.Millisecond)
+				}
+				if sc.TTLMs > 0 {
+					// a group idle for longer than the STATETTL may legitimately be reaped: if this driver (not the engine) let that
+					// happen - CPU starvation - the trace decides nothing
+					now := time.Now()
+					emitTimes = append(emitTimes, now)
+					span := sc.Span
+					if span < 1 {
+						span = 1
+					}
+					if k := len(emitTimes) - 1 - span; k >= 0 && now.Sub(emitTimes[k]) > time.Duration(sc.TTLMs)*time.Millisecond*7/10 {
+						in.Log(Ev{"tr": sc.Tr, "e": "void", "why": "driver paused longer than 0.7 STATETTL between rows of a group"})
+					}
+				}
 				nEmit++
 				s.Emit(row)
 				if !sc.Burst && !in.WaitFor(T, quiet) {
